@@ -394,3 +394,110 @@ _base_scn_ct = scenarios
 
 def scenarios():
     return _base_scn_ct() + [cleartext_str(0), cleartext_str(1)]
+
+
+def message_parse(kind):
+    """PGPMessage.parse: kind check, cleartext branch (un-escaped text, then every signature packet wrapped), packet branch (every packet in
+    order). The packet reader is given by contract: it consumes at least one octet from the front of the buffer, in place."""
+    label = 'C20/PGPMessage.parse[%s]' % kind
+    MSGC = 'pgpy.pgp.PGPMessage'
+
+    def gen(repo):
+        r = scn.Run(repo, MSGC, 'parse', label)
+        ex, st = r.ex, r.st
+        me = E.VObj(MSGC, 'msg')
+        MAGIC, BODY, CLEAR = z3.Const('BLOCK_LABEL', B), z3.Const('BODY', B), z3.Const('CLEARTEXT_AS_ARMORED', B)
+        buf = ex.new_buf(st, BODY)
+        lit = lambda t: ex.strseq(E.VStr(s=t))
+        if kind == 'cleartext':
+            magic = E.VStr(s='SIGNATURE')
+        elif kind == 'binary':
+            magic = E.VNone()
+        elif kind == 'armored message':
+            magic = E.VStr(s='MESSAGE')
+        else:
+            magic = E.VStr(z=MAGIC)
+            st.pc += [MAGIC != lit('MESSAGE'), MAGIC != lit('SIGNATURE')]
+        d = E.VDict([(E.VStr(s='magic'), magic), (E.VStr(s='headers'), E.VNone()), (E.VStr(s='body'), buf),
+                     (E.VStr(s='cleartext'), E.VStr(z=CLEAR) if kind == 'cleartext' else E.VNone()), (E.VStr(s='crc'), E.VNone())])
+        r.hook('pgpy.types.Armorable', 'ascii_unarmor', scn.method_hook(lambda ex, st, o, a: [(st, d)]))
+        UNESC = z3.Function('RE_SUBN_STR[^-  ->  | re.MULTILINE]', B, B)
+        SIGP = 'pgpy.packet.packets.SignatureV4'
+
+        def packet(ex, st, c, a):
+            # contract of the packet reader: takes k >= 1 octets from the front of the buffer it is given
+            S = st.heap[a[0].cell]
+            k = E.fresh('consumed')
+            st.pc += [k >= 1, k <= z3.Length(S)]
+            st.heap[a[0].cell] = z3.Extract(S, k, z3.Length(S) - k)
+            p = E.VObj(SIGP if kind == 'cleartext' else 'pgpy.packet.packets.LiteralData', E.fresh('packet'))
+            st.ghost['read'] = 'some' if st.ghost.get('read') == 'some' else st.ghost.get('read', 0) + 1
+            st.ghost['last_read'] = p
+            return [(st, p)]
+        r.hook('pgpy.packet.types.Packet', '__call__', packet)
+        r.hook('pgpy.pgp.PGPSignature', '__call__', lambda ex, st, c, a: [(st, E.VObj('pgpy.pgp.PGPSignature', E.fresh('wrapped')))])
+
+        def sig_or(ex, st, o, a):
+            st.heap[('wrap-of', str(o.ref))] = a[0]
+            return [(st, o)]
+        r.hook('pgpy.pgp.PGPSignature', '__or__', scn.method_hook(sig_or))
+
+        def m_or(ex, st, o, a):
+            if st.ghost.get('fed') != 'some':
+                st.ghost['fed'] = st.ghost.get('fed', 0) + 1
+                if st.ghost['fed'] == 1:
+                    st.ghost['first_fed'] = a[0]
+            st.ghost['last_fed'] = a[0]
+            if st.ghost.get('last_read') is not None:
+                st.ghost['last_fed_in_loop'] = a[0]
+            return [(st, o)]
+        r.hook(MSGC, '__or__', scn.method_hook(m_or))
+        loops = ex.register_loops('parse', r.node)
+        pre_fed = 1 if kind == 'cleartext' else 0
+
+        def fed_what_was_read(st):
+            lr, lf = st.ghost.get('last_read'), st.ghost.get('last_fed_in_loop')
+            if lr is None and lf is None:
+                return True
+            if kind == 'cleartext':
+                return isinstance(lf, E.VObj) and st.heap.get(('wrap-of', str(lf.ref))) is lr
+            return lf is lr
+
+        def inv(ex, st, env):
+            cur = st.heap[buf.cell]
+            n, L = z3.Length(cur), z3.Length(BODY)
+            # the buffer is a suffix of the body, and the packet read in this iteration is the thing fed to the message in it
+            return z3.And(n >= 0, n <= L, cur == z3.Extract(BODY, L - n, n), z3.BoolVal(fed_what_was_read(st)))
+
+        def havoc(ex, st, env):
+            st.heap[buf.cell] = E.fresh('buffer', B)
+            st.ghost['last_read'] = None
+            st.ghost['last_fed_in_loop'] = None
+            st.ghost['fed'] = 'some'          # the count is not tracked through the loop; each iteration's own feeding is
+            st.ghost['read'] = 'some'
+        spec = {'name': 'one-packet-per-iteration', 'inv': inv, 'havoc': havoc, 'variant': lambda ex, st, env: z3.Length(st.heap[buf.cell])}
+        for i in range(len(loops)):
+            ex.loops[('parse', i)] = spec
+        # per-iteration obligation: what was read is what is fed (checked inside the hooks through ghost counters of ONE iteration)
+        for pi, (s, v) in enumerate(r.call(me, [E.VBytes(z3.Const('INPUT', B))])):
+            if kind == 'other kind':
+                r.oblige(s, 'a-block-of-another-kind-is-refused(ValueError)-before-anything-is-read/p%d' % pi,
+                         z3.BoolVal(isinstance(v, E.Raise) and v.exc.split(':')[0] == 'ValueError' and not s.ghost.get('read') and not s.ghost.get('fed')))
+                continue
+            if isinstance(v, E.Raise):
+                r.oblige(s, 'safety(%s)/p%d' % (v.exc.split(':')[0], pi), z3.BoolVal(False), v.where)
+                continue
+            r.oblige(s, 'the-whole-body-is-consumed/p%d' % pi, z3.Length(s.heap[buf.cell]) == 0)
+            if kind == 'cleartext':
+                ff = s.ghost.get('first_fed')
+                r.oblige(s, 'first-the-un-escaped-cleartext-becomes-the-body/p%d' % pi,
+                         z3.And(z3.BoolVal(isinstance(ff, E.VStr) and ff.z is not None), ff.z == UNESC(CLEAR) if isinstance(ff, E.VStr) and ff.z is not None else z3.BoolVal(False)))
+        return r.result()
+    return Scenario(label, MSGC + '.parse', gen, props=('C20', 'C11', 'C10'))
+
+
+_base_scn_mp = scenarios
+
+
+def scenarios():
+    return _base_scn_mp() + [message_parse(k) for k in ('binary', 'armored message', 'cleartext', 'other kind')]
